@@ -1,5 +1,6 @@
 import StepModel.InstMgrHistory
 import StepModel.GenNodeArrayLemmas
+import StepModel.InstMgrBufLemmas
 /-!
 # C13 — the instance manager stays consistent under any sequence of operations
 
@@ -334,6 +335,22 @@ leaves, for every former element, its freed pointer readable at its old index al
 theorem C13_buf_unnulled_delete_witness (a : Arr) (i p : Nat) (hi : i < a.count) (hp : a.buf[i]? = some (some p)) :
     (dropAll false a).count = 0 ∧ slotAt (dropAll false a) i = some p :=
   dropAll_false_dangling a i p hi hp
+
+open StepModel.GenNodeArray in
+/-- The list model and the buffer model describe one array.  Replaying, on the heap-block model, exactly the calls that
+the operations of ANY history make on `master` (`traceOf`: `Append`/`Remove( ArrayIndex )`/`ClearEntries`/`DeleteEntries`
+in the order `InstMgr`'s control flow issues them) never leaves the block; afterwards the first `_count` slots are the
+node identities of `s.nodes` in order, `_count` is `InstanceCount()`, the block length is the model's `bufsize`, and every
+slot at or above the count is null — which is what `GetMgrNode( i )` / `GetApplication_instance( i )` read for such `i`. -/
+theorem C13_master_array_is_buffer (ops : List Op) :
+    ∃ a, runBuf GenNodeArray.init (traceOf init ops) = some a ∧ Wf a ∧
+      view a = (run init ops).nodes.map (fun n => some n.nid) ∧
+      a.buf.length = (run init ops).bufsize ∧ a.count = count (run init ops) ∧
+      ∀ i, count (run init ops) ≤ i → slotAt a i = none := by
+  obtain ⟨a, h1, L⟩ := link_run link_init ops
+  refine ⟨a, h1, L.wf, L.view, L.len, link_count L, ?_⟩
+  intro i hi
+  exact slotAt_above a i L.wf (by rw [link_count L]; exact hi)
 
 open StepModel.GenNodeArray in
 /-- growth: `Check` always leaves room for the slot `Append` is about to write, whatever the default size is -/
